@@ -23,6 +23,11 @@ Passes (all applied by default; VERIF_NORM=0 switches the normaliser off):
            x.extend([a, b])       ->  x.append(a); x.append(b)
            d.setdefault(k, []).append(v) -> if k not in d: d[k] = []
                                             d[k].append(v)
+  unroll   for v in (p.a, q, r.b): BODY  ->  BODY[v:=p.a]; BODY[v:=q]; BODY[v:=r.b]
+           (a literal tuple/list of at most 8 names or attribute paths, v not assigned in BODY,
+           no break/continue in BODY: a spelled-out list of actions)
+  verdict  if X.compare(a, b) OP lit: ..  ->  __fN = X.compare(a, b); if __fN OP lit: ..
+           (a comparator verdict tested in place gets the name the rest of the code base gives it)
 """
 import ast
 import copy
@@ -269,6 +274,46 @@ def _lower_setdefault(st):
     ]
 
 
+def _unroll_literal(st):
+    if not (isinstance(st, ast.For) and isinstance(st.target, ast.Name) and not st.orelse
+            and isinstance(st.iter, (ast.Tuple, ast.List)) and 1 <= len(st.iter.elts) <= 8):
+        return None
+    if not all(isinstance(e, (ast.Name, ast.Attribute)) and access_path(e) is not None for e in st.iter.elts):
+        return None
+    v = st.target.id
+    for n in ast.walk(ast.Module(body=st.body, type_ignores=[])):
+        if isinstance(n, (ast.Break, ast.Continue, ast.FunctionDef, ast.Lambda, ast.AsyncFunctionDef)):
+            return None
+        if isinstance(n, ast.Name) and n.id == v and not isinstance(n.ctx, ast.Load):
+            return None
+    out = []
+    for e in st.iter.elts:
+        for b in st.body:
+            c = copy.deepcopy(b)
+
+            class S(ast.NodeTransformer):
+                def visit_Name(self, n):
+                    if n.id == v and isinstance(n.ctx, ast.Load):
+                        return ast.copy_location(copy.deepcopy(e), n)
+                    return n
+            out.append(S().visit(c))
+    STATS["unroll"] = STATS.get("unroll", 0) + 1
+    return out
+
+
+def _hoist_verdict(st, fx):
+    if not (isinstance(st, ast.If) and isinstance(st.test, ast.Compare) and len(st.test.ops) == 1
+            and isinstance(st.test.left, ast.Call) and isinstance(st.test.left.func, ast.Attribute)
+            and st.test.left.func.attr == "compare" and isinstance(st.test.comparators[0], ast.Constant)):
+        return None
+    nm = fx.fresh("f")
+    asg = _loc(ast.Assign(targets=[ast.Name(id=nm, ctx=ast.Store())], value=st.test.left), st)
+    new_if = ast.If(test=ast.Compare(left=ast.Name(id=nm, ctx=ast.Load()), ops=st.test.ops,
+                                     comparators=st.test.comparators), body=st.body, orelse=st.orelse)
+    STATS["verdict"] = STATS.get("verdict", 0) + 1
+    return [asg, _loc(new_if, st)]
+
+
 # --------------------------------------------------------------------- driver
 def _block(stmts, fx, occ):
     out = []
@@ -292,6 +337,12 @@ def _stmt(st, fx, occ):
         r = rewrite(st, fx, occ)
         if r is not None:
             return _block(r, fx, occ)
+    r = _hoist_verdict(st, fx)
+    if r is not None:
+        return _block(r, fx, occ)
+    r = _unroll_literal(st)
+    if r is not None:
+        return _block(r, fx, occ)
     for field in ("body", "orelse", "finalbody"):
         b = getattr(st, field, None)
         if isinstance(b, list) and b and isinstance(b[0], ast.stmt):
